@@ -3,6 +3,7 @@
 -/
 import ErgoProofs.Lemmas.ReachInv
 import ErgoProofs.Lemmas.StorageThm
+import ErgoProofs.Lemmas.CodecInst
 namespace Ergo
 
 /-- for every history the CLI can produce: replaying the compacted log succeeds, every live item's observable data
@@ -63,5 +64,16 @@ theorem C05_torn_tail_irrelevant {classify : Storage.Bytes → Storage.LineClass
     (hlen : frag.length < limit) :
     Storage.readEvents classify limit (f ++ frag) = Storage.readEvents classify limit f :=
   Storage.readEvents_fragment f frag hcl hnl hne hbad hlen
+
+
+/-- what compaction writes can be read back: from a log of well-formed events, every event `compact` emits is well-formed, so (C12/C17) each of
+    its lines decodes to the event it was written for — states, texts and time stamps included -/
+theorem C05_compaction_writes_recoverable_events (log : List Event) (hl : Codec.AllWf log) (g : Graph) (h : replay log = .ok g) :
+    Codec.AllWf (compactEvents g) :=
+  Codec.compactEvents_wf g (Codec.replay_wf log hl g h)
+
+/-- compaction re-writes every time stamp from its parsed value: the text it writes parses to the same instant -/
+theorem C05_time_stamps_survive (t : Time) (h : t < Time.maxT) : Time.parse (Time.format t) = some t :=
+  Time.parse_format t h
 
 end Ergo
